@@ -34,6 +34,7 @@ class IpH(explore.Harness):
         self.rig = IpRig(seed=p.get("seed", 0), auto=True)
         self.loop, self.net = self.rig.loop, self.rig.net
         self.rig.acc.handler = self._handler
+        self.rig.acc.fixed_eph = bool(p.get("fixed_acc_eph"))
         self.queue = {}  # cid -> list of genuine frames not yet delivered: (seq, bytes)
         self.delivered = {}  # cid -> list of (seq, bytes)
         self.genuine = {}  # digest(frame[2:]) -> (cid, seq)
@@ -257,6 +258,10 @@ def run(ctx):
         d = depth + ((1 if quick else 5) if tr == "coap" else ((1 if quick else 3) if tr == "ble" else (0 if quick else 1)))
         rs = explore.roots(lambda: make(p), 2)
         work += [(p, r, d) for r in rs]
+    # the same IP space against an accessory that re-uses its ephemeral key in every session (and so replays its side of pair-verify): the
+    # controller's own fresh key has to keep (key, nonce) pairs apart across the reconnects that failures cause
+    p = dict(transport="ip", seed=ctx.seed, fixed_acc_eph=True)
+    work += [(p, r, depth + (0 if quick else 1)) for r in explore.roots(lambda: make(p), 2)]
     ctx.bounds.update(depth=depth, transports=list(HARNESSES))
     ctx.pmap(_work, work)
     ctx.exhaustive = not ctx.acc.capped
